@@ -89,6 +89,72 @@ CLAIMS = {
         "import inference fail; sqlalchemy* ignore the template. Axioms: none.",
         "6 (C19)",
     ),
+    "C10": (
+        "Coq proofs (induction over permutations / lists) that merge_params and _join_non_none are independent of the set-"
+        "enumeration order, + kernel-checked inventory of every order-relevant set iteration, mutable default and global writer "
+        "regenerated from /repo by a translator; fresh-process runs across hash seeds and call histories",
+        "C10_merge_enum_independent: for every pair of parameter dicts and any two enumerations of the key intersection (any hash "
+        "seed) merge_params returns the same ordered result; C10_order_spec: the order is documented names then undocumented "
+        "signature names in signature order; C10_join_enum_independent: the joined map of _join_non_none does not depend on the "
+        "enumeration. C10_sites: the inventory of set iterations that translate/setiter.py regenerates from the whole non-test "
+        "package on every run contains no order-relevant site, mutable default argument or global writer outside the approved, "
+        "individually justified list -- an unsorted set reaching a loop/join/list breaks the proof. The model is compared with "
+        "merge_params on generated dict pairs; functions documenting a subset/permutation of their signature, every emitter, and "
+        "gen --phase 1 on a model with several foreign tables are run in fresh processes under several PYTHONHASHSEED values "
+        "(incl. random) and byte-compared; repeated/interleaved in-process calls and re-use of one AST node across formats are "
+        "compared with a fresh run. State outside the inventoried sites is not modelled: partial.",
+        "Trusted: Coq kernel; translate/setiter.py (syntactic set-expression recognition; approved list by inspection); extraction + "
+        "driver; hash randomisation abstracted as 'any permutation'. Axioms: none.",
+        "6 (C10)",
+    ),
+    "C11": (
+        "Coq: generic theorem 'a loop whose step strictly decreases a measure under its guard terminates within that many "
+        "iterations' instantiated on the transcribed index arithmetic of each of the six while loops, + kernel-checked inventory "
+        "(regenerated from /repo) that these are all the while loops, bodies unedited; watchdog runs and iteration-count "
+        "correspondence via sys.settrace",
+        "For every input and every starting state each of the six `while` loops of the package leaves the loop after at most mu "
+        "iterations, mu linear in the text length (C11_*_terminates, C11_emit_skip_linear). C11_inventory: the loops that "
+        "translate/loops.py finds in the current source are exactly these six (module|function|condition|hash of the body) and the "
+        "directly self-recursive functions are the four approved ones, so a new loop or an edit to a loop body breaks the proof. "
+        "Ties: iteration counts of the two fully transcribed loops (emit skip loop, union phase 0) are compared with "
+        "sys.settrace counts on generated texts; every docstring-level entry point runs on all token sequences up to length 2 "
+        "(quick) / 3 (thorough) over a 27-token alphabet plus random longer texts under a 3 s watchdog; doctrans is applied 3 times "
+        "to generated modules. for-loops over finite sequences, AST recursion and CPython builtins are taken to terminate; "
+        "'proportional to the size' is proved for loop iterations only: partial.",
+        "Trusted: Coq kernel; translate/loops.py; the transcription of each loop's index arithmetic (L2-L4, L6 are not run against "
+        "the code, only L1 and L5 are); CPython. Axioms: none.",
+        "6 (C11)",
+    ),
+    "C14": (
+        "Coq proofs for all names / all parameter lists (name sanitising has no leading asterisk; signature merge yields each "
+        "signature parameter exactly once, no duplicates) + correspondence, + evaluation of the documented IR shape on the result "
+        "of every parser over grammar-generated inputs",
+        "C14_name_sanitised (every string), C14_merge_nodup and C14_signature_once (every pair of parameter lists, any set "
+        "enumeration) are proved of hand-written models tied to _set_name_and_type and merge_params by differential runs (C10 "
+        "shares the merge model). The remaining clauses of the shape (key set, string-ness, type parses as an expression, single "
+        "return entry) have no theorem (no Python grammar in the model): they are evaluated on the implementation's result for "
+        "generated docstrings in three styles (sections in any order, raises/usage/notes, multi-line descriptions, "
+        "*args/**kwargs/**kw entries), functions, classes, argparse/SQLAlchemy/JSON-schema/pydantic artefacts and token-alphabet "
+        "text: partial.",
+        "Trusted: Coq kernel; extraction + driver; harness. Known findings: function parser returns typ None; ReST footer absorbed "
+        "into the last type; malformed entries for arbitrary text. Axioms: none.",
+        "6 (C14)",
+    ),
+    "C15": (
+        "Coq proofs for every string: the three slices concatenate to the docstring for any index pair with start<=last; the start "
+        "index is a line start; re-assembly keeps header as prefix and footer as suffix; models of _get_token_start_idx and "
+        "header_args_footer_to_str tied to the code by differential runs; split identity and header preservation evaluated on the "
+        "implementation for all style pairs",
+        "C15_slices (parametric in the index functions, so it survives any rewrite of the index arithmetic that keeps start <= "
+        "last), C15_start_is_line_start (the header consists of whole lines), C15_header_prefix / C15_footer_suffix (the prose is "
+        "never rewritten by re-assembly). _get_token_start_idx and header_args_footer_to_str are literal transcriptions compared "
+        "with the code on every generated docstring; _get_token_last_idx and the re-indentation step are not transcribed, so the "
+        "concatenation identity of the real split, the presence in order of every header line after conversion (9 style pairs "
+        "through the function parser) and 'no prose absorbed into a type/default' are evaluated on the implementation: partial.",
+        "Trusted: Coq kernel; extraction + driver; harness; textwrap.indent modelled with newline as the only line break. Known "
+        "findings: split(d, d) re-indents indented docstrings; ReST footer absorbed into the last type. Axioms: none.",
+        "6 (C15)",
+    ),
 }
 
 NOT_YET = "check not built yet in this development (DESIGN.md section 8 gives the order of work)"
